@@ -166,8 +166,34 @@ func VerifBind() {
 	call := &ast.CallExpr{Name: "f"}
 	argNamed := make([]bool, na)
 	argName := make([]string, na)
+	argVal := make([]any, na)
+	callClass := 0
+	if verifnd.Param("VALS", 1) == 1 && na > 0 {
+		callClass = verifnd.Choice(3)
+	}
 	for i := 0; i < na; i++ {
+		// the value handed over: a distinct integer, or one of the values an implementation
+		// could confuse with "no argument": nil, 0, false, "". VALS=1: one class per call
+		// (x3 paths); VALS=2: chosen per argument (x5 per argument).
 		lit := vIntLit(int64(100 + i))
+		argVal[i] = int64(100 + i)
+		vk := 0
+		switch verifnd.Param("VALS", 1) {
+		case 1:
+			vk = []int{0, 1, 2 + i%3}[callClass]
+		case 2:
+			vk = verifnd.Choice(5)
+		}
+		switch vk {
+		case 1:
+			lit, argVal[i] = ast.WrapNilLiteral(&ast.NilLiteral{}), nil
+		case 2:
+			lit, argVal[i] = vIntLit(0), int64(0)
+		case 3:
+			lit, argVal[i] = ast.WrapBoolLiteral(&ast.BoolLiteral{Val: false}), false
+		case 4:
+			lit, argVal[i] = ast.WrapStringLiteral(&ast.StringLiteral{Val: ""}), ""
+		}
 		argNamed[i] = verifnd.Int(0, 1) == 1
 		if argNamed[i] {
 			// the name: one of the declared names or an unknown one
@@ -181,8 +207,8 @@ func VerifBind() {
 
 	// reference binder
 	ok := true
-	bound := make([]int64, np) // 0 = unbound, else literal value
-	var rest []int64
+	bound := make([]int, np) // 0 = unbound, else 1 + index of the argument
+	var rest []any
 	sawNamed := false
 	npos := 0
 	for i := 0; i < na; i++ {
@@ -200,7 +226,7 @@ func VerifBind() {
 			if idx < 0 || (idx >= 0 && bound[idx] != 0) {
 				ok = false
 			} else {
-				bound[idx] = int64(100 + i)
+				bound[idx] = i + 1
 			}
 		} else {
 			if sawNamed {
@@ -208,12 +234,12 @@ func VerifBind() {
 			}
 			switch {
 			case hasVar && npos >= np-1:
-				rest = append(rest, int64(100+i))
+				rest = append(rest, argVal[i])
 			case npos < np:
 				if bound[npos] != 0 {
 					ok = false
 				}
-				bound[npos] = int64(100 + i)
+				bound[npos] = i + 1
 			default:
 				ok = false // more arguments than parameters
 			}
@@ -251,12 +277,12 @@ func VerifBind() {
 			verifnd.Assert(len(l) == len(rest), "variadic-count")
 			if len(l) == len(rest) {
 				for k := range rest {
-					verifnd.Assert(l[k] == any(rest[k]), "variadic-order")
+					verifnd.Assert(l[k] == rest[k], "variadic-order")
 				}
 			}
 		default:
 			if bound[j] != 0 {
-				verifnd.Assert(v == any(bound[j]), "parameter-gets-its-argument")
+				verifnd.Assert(v == argVal[bound[j]-1], "parameter-gets-its-argument")
 			} else {
 				verifnd.Assert(v == any(int64(900+j)), "omitted-optional-gets-default")
 			}
